@@ -139,3 +139,62 @@ theorem unresolved_not_ok {env : Env} {cfg : Cfg} {p : Prog} {fuel : Nat} {o : O
   cases this
 
 end NakenVerif.Link
+
+namespace NakenVerif.Link
+
+theorem layout_succ (size : Name → Nat) : ∀ (xs : List Name) (a0 : Addr) (i : Nat) (n n' : Name) (a a' : Addr),
+    (Spec.layout size xs a0)[i]? = some (n, a) → (Spec.layout size xs a0)[i + 1]? = some (n', a') →
+    a' = a + BitVec.ofNat 32 (4 * Spec.words (size n))
+  | [], a0, i, n, n', a, a', h, _ => by simp [Spec.layout] at h
+  | x :: xs, a0, 0, n, n', a, a', h, h' => by
+    simp only [Spec.layout, List.getElem?_cons_zero, Option.some.injEq, Prod.mk.injEq] at h
+    obtain ⟨rfl, rfl⟩ := h
+    simp only [Spec.layout, Nat.zero_add, List.getElem?_cons_succ] at h'
+    cases xs with
+    | nil => simp [Spec.layout] at h'
+    | cons y ys =>
+      simp only [Spec.layout, List.getElem?_cons_zero, Option.some.injEq, Prod.mk.injEq] at h'
+      exact h'.2.symm
+  | x :: xs, a0, i + 1, n, n', a, a', h, h' => by
+    simp only [Spec.layout, List.getElem?_cons_succ] at h h'
+    exact layout_succ size xs _ i n n' a a' h h'
+
+theorem layout_zero (size : Name → Nat) (xs : List Name) (a0 : Addr) (n : Name) (a : Addr)
+    (h : (Spec.layout size xs a0)[0]? = some (n, a)) : a = a0 := by
+  cases xs with
+  | nil => simp [Spec.layout] at h
+  | cons y ys => simp [Spec.layout] at h; exact h.2.symm
+
+/-- the runs written by pass 2 follow each other without gap or overlap, starting where the source ended -/
+theorem runs_consecutive {env : Env} {cfg : Cfg} {p : Prog} {o : Out} (s : Sound env cfg p o) :
+    (∀ a b, o.runs[0]? = some (a, b) → a = p.end1 ∧ a = p.end2) ∧
+    ∀ i a b a' b', o.runs[i]? = some (a, b) → o.runs[i + 1]? = some (a', b') → a' = a + BitVec.ofNat 32 b.length := by
+  have hlen : o.runs.length = o.list.length := by
+    have := s.placed.length_eq
+    rw [← this, ← List.length_map (f := (·.1)), layout_names]
+  have getName : ∀ (i : Nat) (r : Addr × List UInt8), o.runs[i]? = some r → ∃ n, o.list[i]? = some n := by
+    intro i r hr
+    have hi : i < o.runs.length := by
+      rcases Nat.lt_or_ge i o.runs.length with h | h
+      · exact h
+      · rw [List.getElem?_eq_none h] at hr; cases hr
+    exact ⟨o.list[i]'(by omega), by simp [show i < o.list.length by omega]⟩
+  constructor
+  · intro a b h0
+    obtain ⟨n, hn⟩ := getName 0 _ h0
+    obtain ⟨f, a1, b1, pl⟩ := placed_at s hn
+    rw [pl.run] at h0; cases h0
+    have := layout_zero _ _ _ _ _ pl.inLayout
+    have hne : o.list ≠ [] := by intro e; rw [e] at hn; simp at hn
+    exact ⟨this, this.trans (s.ends hne)⟩
+  · intro i a b a' b' h1 h2
+    obtain ⟨n, hn⟩ := getName i _ h1
+    obtain ⟨n', hn'⟩ := getName (i + 1) _ h2
+    obtain ⟨f, a1, b1, pl⟩ := placed_at s hn
+    obtain ⟨f', a2, b2, pl'⟩ := placed_at s hn'
+    rw [pl.run] at h1; cases h1
+    rw [pl'.run] at h2; cases h2
+    have := layout_succ _ _ _ _ _ _ _ _ pl.inLayout pl'.inLayout
+    rw [this, sizeOf_found pl.found, (placed_bytes_preserved pl).1]
+
+end NakenVerif.Link
